@@ -337,6 +337,13 @@ def gen_problem(ctx, tiny=False, layout=None):
     m = rng.randint(1, 4)
     xmin_s = gen_spec(rng, sizes, -0.5, 0.3, [0.0, 0.0, 0.1, -1.0])
     xmax_s = gen_spec(rng, sizes, 1.0, 3.0, [1.0, 1.0, 2.0, 5.0])
+    if nsig >= 2 and rng.random() < 0.2:
+        # variables with different ranges (one signal 2^5 ... 2^7 times wider): every criterion of the optimiser works in units of
+        # the per-variable range.  (Ranges beyond ~1e4 are NOT generated: there the floating-point Newton iteration of the real
+        # sub-problem solver breaks down -- open known finding mma-subsolv-nan-wide-ranges.)
+        his = [rng.uniform(1.0, 3.0) for _ in range(nsig)]
+        his[rng.randrange(nsig)] *= 2.0 ** rng.choice([5, 6, 7])
+        xmax_s = ("sig", his)
     move_s = gen_spec(rng, sizes, 0.05, 0.6, [0.1, 0.1, 0.2, 0.5, 1.0])
     xmin, xmax = spec_full(xmin_s, sizes), spec_full(xmax_s, sizes)
     dx = xmax - xmin
@@ -420,6 +427,11 @@ def gen_problem(ctx, tiny=False, layout=None):
     resp = [obj] + cons
     # start
     x0 = xmin + dx * np.array([rng.uniform(0.05, 0.95) for _ in range(n)])
+    wide = dx > 100.0
+    if wide.any():
+        # the wide-range variables start next to their optimum (a start far away makes the first sub-problems so badly scaled that
+        # the floating-point Newton iteration of the sub-problem solver breaks down: outside the exact-arithmetic statement)
+        x0 = np.where(wide, np.clip(xs + 1e-4 * dx * np.array([rng.uniform(-1, 1) for _ in range(n)]), xmin + 1e-3 * dx, xmax - 1e-3 * dx), x0)
     if rng.random() < 0.15:
         j = rng.randrange(n)
         x0[j] = xmin[j] if rng.random() < 0.5 else xmax[j]
@@ -436,6 +448,14 @@ def gen_problem(ctx, tiny=False, layout=None):
     maxit = rng.randint(3, 12) if ctx.quick else rng.randint(3, 40)
     if not xs_valid:
         maxit = min(maxit, 4)       # sub-problems of an objective that ignores some variables are slow to solve (Newton caps)
+    # an all-integer start design handed over in integer dtype (every variable at a whole number inside its bounds)
+    intstart = False
+    if rng.random() < 0.2 and float(np.max(xmax - xmin)) < 100.0:
+        xi = np.ceil(xmin + 1e-9)
+        if np.all(xi <= xmax - 1e-9):
+            x0 = np.where(np.floor(xmax - 1e-9) > xi, xi + (np.arange(n) % 2), xi).astype(float)
+            x0 = np.minimum(x0, np.floor(xmax - 1e-9))
+            intstart = True
     # two variable signals initialised with the SAME array object (each must still receive its own slice of every new design)
     share = []
     cum_ = np.concatenate([[0], np.cumsum(sizes)]).astype(int)
@@ -448,7 +468,7 @@ def gen_problem(ctx, tiny=False, layout=None):
             x0[cum_[j]:cum_[j + 1]] = seg
             share.append([i, j])
     return {"sizes": sizes, "kinds": kinds, "resp": resp, "x0": x0, "xs": xs, "xmin": xmin_s, "xmax": xmax_s, "move": move_s,
-            "share": share, "opts": opts, "a": acoef, "c": ccoef, "tolx": rng.choice([1e-4, 1e-4, 0.0, 1e-6]),
+            "share": share if not intstart else [], "intstart": intstart, "opts": opts, "a": acoef, "c": ccoef, "tolx": rng.choice([1e-4, 1e-4, 0.0, 1e-6]),
             "tolf": rng.choice([0.0, 0.0, 0.0, 1e-6]), "maxit": maxit, "entry": rng.choice(["MMA", "minimize_mma"]),
             "default_asy": default_asy, "kind": kind, "mu": mu, "xs_valid": xs_valid, "chains": rng.random() < 0.5,
             "masked": masked}
@@ -458,6 +478,11 @@ def make_states(p):
     out, pos = [], 0
     for k, kind in zip(p["sizes"], p["kinds"]):
         v = p["x0"][pos:pos + k]
+        if p.get("intstart"):     # integer-typed start design (np.ones(n, dtype=int), a Python int): later designs are floats
+            out.append(int(round(v[0])) if kind in ("pyfloat", "npfloat") else
+                       np.array(int(round(v[0])), dtype=np.int64) if kind == "0d" else np.array([int(round(t)) for t in v], dtype=np.int64))
+            pos += k
+            continue
         out.append(float(v[0]) if kind == "pyfloat" else np.float64(v[0]) if kind == "npfloat" else
                    np.array(v[0], dtype=float) if kind == "0d" else np.array(v, dtype=float))
         pos += k
@@ -755,7 +780,7 @@ def describe(p):
             "resp": [{"k": float(r["k"]), "l": fl(r["l"]), "B": fl(r["B"]), "s": float(r["s"]),
                       "H": None if r["H"] is None else [fl(row) for row in r["H"]], "mask": r.get("mask")} for r in p["resp"]],
             "xs": fl(p["xs"]), "xs_valid": p.get("xs_valid", True), "chains": p.get("chains", False),
-            "share": p.get("share", [])}
+            "share": p.get("share", []), "intstart": p.get("intstart", False)}
 
 
 def undescribe(d):
@@ -901,7 +926,9 @@ def stream_runs(ctx, nprob):
             scx = float(np.max(a_["beta"] - a_["alfa"])) + 1e-3
             pairs = [("x", o["x"], pt["x"], scx)]
             for nm in ("y", "lam", "xsi", "eta", "mu", "s"):
-                pairs.append((nm, o[nm], pt[nm], 1.0 + float(np.max(np.abs(o[nm])))))
+                # (dual variables and slacks of a nearly degenerate sub-problem amplify rounding differences of the Newton
+                #  iteration: relative 1e-4; the primal solution x is compared at 1e-6 of the variable range)
+                pairs.append((nm, o[nm], pt[nm], 100.0 * (1.0 + float(np.max(np.abs(o[nm]))))))
             pairs.append(("z", [o["z"]], [pt["z"]], 1.0))
             pairs.append(("zet", [o["zet"]], [pt["zet"]], 1.0))
             cmp_blocks(ctx, kind, case, pairs, 1e-6, 1e-6, key=("subsolv", pi, ci, ctx.seed))
@@ -985,6 +1012,9 @@ def observe_convergence(ctx, conv):
     for p, out, (d0, d1, gmax) in conv:
         if not (p["default_asy"] and p.get("xs_valid", True) and len(out["trace"]) >= 10 and all(v == 0.0 for v in p["a"])):
             continue
+        rng_ = spec_full(p["xmax"], p["sizes"]) - spec_full(p["xmin"], p["sizes"])
+        if float(np.max(rng_) / np.min(rng_)) > 10.0:
+            continue      # (the heuristic "closer to the optimum after 10 iterations" is calibrated for comparable ranges)
         cnt += 1
         worst_d = max(worst_d, d1)
         worst_g = max(worst_g, gmax)
@@ -1251,3 +1281,19 @@ def replay(ctx, data):
         p = subprocess.run([sys.executable, os.path.join(VERIF, w["script"])], capture_output=True, text=True)
         return {"still_failing": p.returncode != 0, "what": (p.stdout + p.stderr)[-400:]}
     return {"still_failing": False, "note": "replay file names no failing input (see no_longer_checks)"}
+
+
+# ----------------------------------------------------------------------------------------------
+# open known finding
+# ----------------------------------------------------------------------------------------------
+def probe_subsolv_nan_wide_ranges(ctx):
+    import os
+    import subprocess
+    import sys
+    from ..common import VERIF
+    f = os.path.join(VERIF, "corpus", "defects", "pending", "c10_subsolv_nan_wide_ranges.py")
+    pr = subprocess.run([sys.executable, f], capture_output=True, text=True, timeout=600)
+    return ((pr.stdout + pr.stderr).strip().split("\n")[-1][:200] or "witness still fails") if pr.returncode != 0 else None
+
+
+FINDING_PROBES = {"mma-subsolv-nan-wide-ranges": probe_subsolv_nan_wide_ranges}
